@@ -307,6 +307,36 @@ def chunk_structure(p, n):
                              and abs(abs(b[5]) - abs(conv)) <= 2 * TOL_CONV_DEG + slack)
                 p.violation('conv-sign' if sign_only else 'conv-exact', 'quadrants', inp, [a[5], b[5]], [-conv, -conv],
                             call + ' mirrored in the equator / CM')
+        # 5. a long-lived projection definition whose central scale was edited after it had been used: the values are
+        #    those of the definition as it is at the time of the call (same as a fresh object with the same fields)
+        if prj is not K.isg and rng.random() < 0.3:
+            from geodepy.constants import Projection
+            k_old = rng.choice([0.9996, 1.0, 0.99994, round(rng.uniform(0.9990, 1.0005), 6)])
+            if k_old != k0:
+                P = Projection(prj.falseeast, prj.falsenorth, k_old, prj.zonewidth, prj.initialcm)
+                try:
+                    C.geo2grid(lat, lon, zone, ell, P)
+                except Exception:  # noqa
+                    pass
+                P.cmscale = prj.cmscale
+                p.case('edited_definition', inp)
+                try:
+                    r2 = C.geo2grid(lat, lon, zone, ell, P)
+                    same = (r2[2], r2[3], r2[4], r2[5]) == (r[2], r[3], r[4], r[5])
+                    p.check(same, f'psf-conv-projection-used:edited-definition', 'edited_definition',
+                            dict(inp, k0_before=k_old), list(r2[2:6]), list(r[2:6]),
+                            f'P = Projection(..., {k_old!r}, ...); geo2grid(..., P); P.cmscale = {k0!r}; ' + call)
+                    try:
+                        q1 = C.grid2geo(r[1], r[2], r[3], r[0], ell, prj)
+                    except Exception:  # noqa  (a grid coordinate the inverse does not accept: nothing to compare)
+                        q1 = None
+                    if q1 is not None:
+                        q2 = C.grid2geo(r2[1], r2[2], r2[3], r2[0], ell, P)
+                        p.check(tuple(q2) == tuple(q1), f'psf-conv-projection-used:edited-definition', 'edited_definition',
+                                dict(inp, k0_before=k_old, dir='inverse'), list(q2), list(q1), 'grid2geo with the edited definition')
+                except Exception as ex:  # noqa
+                    p.violation('psf-conv-projection-used:edited-definition', 'edited_definition', dict(inp, k0_before=k_old),
+                                f'{type(ex).__name__}: {ex}', list(r[2:6]), call)
         # 4. sign by quadrant: east of the CM in the north and west of it in the south the meridians lean
         #    towards the CM going north (convergence < 0); the other two quadrants > 0
         if abs(om) > 1e-6 and abs(lat) > 1e-6:
